@@ -71,6 +71,12 @@ pub struct XferCfg {
     /// writer: once the final ACK is in, send an ERROR with this code to the transfer endpoint (a client
     /// that tears down noisily, or answers a surplus copy of the final ACK): the upload is complete all the same
     pub late_error: Option<u16>,
+    /// reader: once silent, wake up after this long, send that many stray OACKs (well-formed packets of
+    /// the wrong kind) to the transfer endpoint and fall silent again
+    pub strays_after_silence: Option<(Ns, u32)>,
+    /// reader: when block k has arrived, truncate the served file to this length (a file that shrinks
+    /// while it is being downloaded)
+    pub truncate_at_block: Option<(u64, std::path::PathBuf, u64)>,
 }
 
 impl XferCfg {
@@ -90,6 +96,8 @@ impl XferCfg {
             mode: "octet".into(),
             dup_ack_burst: 1,
             late_error: None,
+            strays_after_silence: None,
+            truncate_at_block: None,
             die_after_blocks: None,
             stray_after_block: None,
             bad_oack_ack: None,
@@ -260,6 +268,9 @@ impl Reader {
                     self.silent = true;
                     self.gen += 1;
                     self.status = Status::Failed("scripted silence".into());
+                    if let Some((after, _)) = self.cfg.strays_after_silence {
+                        cx.timer(after, 1u64 << 61);
+                    }
                     return true;
                 }
                 Adv::Error(code, with_msg) => {
@@ -339,6 +350,14 @@ impl Reader {
             }
             self.accept(payload);
             let idx = self.exp;
+            if let Some((k, path, newlen)) = &self.cfg.truncate_at_block {
+                if idx == *k {
+                    cx.adversarial("file-truncated");
+                    if let Ok(f) = std::fs::OpenOptions::new().write(true).open(path) {
+                        let _ = f.set_len(*newlen);
+                    }
+                }
+            }
             self.exp += 1;
             self.cnt += 1;
             self.retries = 0;
@@ -453,6 +472,15 @@ impl Peer for Reader {
     }
 
     fn on_timer(&mut self, cx: &mut Cx, token: u64) {
+        if token == 1u64 << 61 {
+            if let (Some((_, n)), Some(t)) = (self.cfg.strays_after_silence, self.tid) {
+                for _ in 0..n {
+                    cx.adversarial("stray");
+                    cx.send(t, &rfc::encode(&Pkt::Oack(vec![("blksize".into(), "8".into())])));
+                }
+            }
+            return;
+        }
         if token & (1u64 << 62) != 0 && token != u64::MAX {
             if !self.silent {
                 if let Some(t) = self.tid {
